@@ -1549,6 +1549,125 @@ def rule_param_write(chk, uni, prog):
                               instance="%s: %s written through `%s`" % (where, param, pf.src(node)[:60]))
     chk.count("functions with array parameters", nfun)
 
+
+# ----------------------------------------------------------------------------
+# values cached on a kernel object must be keyed by the hyper-parameters they depend on
+# ----------------------------------------------------------------------------
+def _self_attr_deps(fn, exprs, not_inside=()):
+    """self attributes the expressions depend on, through the local definitions of fn (flow-insensitive);
+    definitions nested inside one of the statements `not_inside` are ignored (they run after the test)"""
+    defs = fn_defs(fn)
+
+    def inside(st):
+        p = st
+        while p is not None:
+            if any(p is x for x in not_inside):
+                return True
+            p = pf.parent(p)
+        return False
+    attrs, seen = set(), set()
+    todo = []
+
+    def scan(e):
+        for n in ast.walk(e):
+            if pf.is_self_attr(n) and isinstance(n.ctx, ast.Load):
+                attrs.add(n.attr)
+            elif isinstance(n, ast.Call) and pf.call_name(n) == "getattr" and len(n.args) >= 2 \
+                    and isinstance(n.args[0], ast.Name) and n.args[0].id == "self" and isinstance(n.args[1], ast.Constant):
+                attrs.add(n.args[1].value)
+            elif isinstance(n, ast.Name) and isinstance(n.ctx, ast.Load):
+                todo.append(n.id)
+    for e in exprs:
+        scan(e)
+    while todo:
+        nm = todo.pop()
+        if nm in seen:
+            continue
+        seen.add(nm)
+        for st, val, tgt in defs.get(nm, []):
+            if not_inside and inside(st):
+                continue
+            scan(val)
+    return attrs
+
+
+def rule_hyper_memo(chk, uni):
+    km = uni.km
+    # hyper-parameter attributes: constructor parameters and hyperparameter_* names of every kernel class
+    for cname, cls in km.classes.items():
+        users = [c for c in km.classes.values() if any(cc is cls for _, cc in uni.mro(km, c)) and uni.is_kernel(km, c)]
+        if not users:
+            continue
+        hyper = set()
+        for u in users:
+            hyper |= uni.ctor_params(km, u) | uni.hyperparameters(km, u)
+        ms = pf.methods(cls)
+        for mname, fn in ms.items():
+            if mname in ("__init__", "__setstate__") or mname in getattr(km, "absorbed", ()):
+                continue
+            if any(pf.src(d).endswith(".setter") for d in fn.decorator_list):
+                continue
+            stores = []
+            for st in pf.walk_no_nested(fn):
+                if isinstance(st, ast.Assign):
+                    for t in st.targets:
+                        if pf.is_self_attr(t):
+                            stores.append((st, t.attr, st.value))
+                elif isinstance(st, ast.Expr) and isinstance(st.value, ast.Call) and pf.call_name(st.value) == "setattr" \
+                        and len(st.value.args) == 3 and pf.src(st.value.args[0]) == "self" \
+                        and isinstance(st.value.args[1], ast.Constant):
+                    stores.append((st, st.value.args[1].value, st.value.args[2]))
+            for st, attr, val in stores:
+                if attr in hyper:
+                    continue  # normalising a hyper-parameter itself (e.g. scalar scale -> list), not a cache
+                # is the attribute read back by a later call (a read not preceded by this store)?
+                readers = []
+                for m2, f2 in ms.items():
+                    for n in ast.walk(f2):
+                        isread = (pf.is_self_attr(n, attr) and isinstance(n.ctx, ast.Load)) or (
+                            isinstance(n, ast.Call) and pf.call_name(n) in ("getattr", "hasattr") and len(n.args) >= 2
+                            and pf.src(n.args[0]) == "self" and isinstance(n.args[1], ast.Constant) and n.args[1].value == attr)
+                        if isread:
+                            readers.append((m2, n))
+                if not readers:
+                    continue
+                where = "%s.%s" % (cname, mname)
+                inst = "%s: self.%s kept between calls does not outlive the hyper-parameters it was computed from" % (where, attr)
+                deps = _self_attr_deps(fn, [val]) & hyper
+                if not deps:
+                    chk.ok("hyper-memo", inst + " (value independent of hyper-parameters)", nontrivial=False)
+                    continue
+                tests = [t for t, pol, kind in cfgm.conditions_at(st)]
+                guards_if = []
+                gp_ = pf.parent(st)
+                while gp_ is not None and gp_ is not fn:
+                    if isinstance(gp_, ast.If):
+                        guards_if.append(gp_)
+                    gp_ = pf.parent(gp_)
+                for m2, n in readers:
+                    if m2 != mname:
+                        continue  # tests of other methods are written over their own locals
+                    par = n
+                    while par is not None and not isinstance(par, ast.stmt):
+                        par = pf.parent(par)
+                    if par is not None:
+                        tests += [t for t, pol, kind in cfgm.conditions_at(par)]
+                        if isinstance(par, ast.If):
+                            tests.append(par.test)
+                guard = _self_attr_deps(fn, tests, not_inside=guards_if)
+                missing = sorted(deps - guard)
+                if not missing:
+                    chk.ok("hyper-memo", inst + " (validity test covers %s)" % sorted(deps))
+                else:
+                    chk.violation("hyper-memo", KR, where, "self.%s = %s" % (attr, pf.src(val)[:60]), st.lineno,
+                                  "the value cached in self.%s is computed from the hyper-parameter(s) self.%s, but the "
+                                  "test that decides whether the cache is still valid only looks at %s. sklearn assigns "
+                                  "hyper-parameters from outside (kernel.theta = ..., set_params, clone_with_theta use "
+                                  "setattr), so after self.%s changes this method keeps returning the old value "
+                                  "(e.g. diag(X) != diag k(X, X))"
+                                  % (attr, ", self.".join(sorted(deps)), sorted(guard & hyper) or "nothing of them",
+                                     missing[0]), instance=inst)
+
 # ----------------------------------------------------------------------------
 def analyse(chk):
     tree = chk.tree
@@ -1573,6 +1692,9 @@ def analyse(chk):
     chk.guard(rule_fixed, uni)
     chk.guard(rule_units, uni, prog)
     chk.guard(rule_param_write, uni, prog)
+    chk.rule("hyper-memo", "state kept on a kernel object between calls is keyed by every hyper-parameter it depends on")
+    chk.guard(rule_hyper_memo, uni)
+    chk.floor("hyper-memo", 2, "the _locked flags of the two locking mixins")
     # external rules
     from sa import kerneldens  # noqa: E402 (b-eval: sign-domain rule for denominators of kernel gradients)
     chk.guard(kerneldens.rule_kernel_denominators, prog)
@@ -1857,6 +1979,15 @@ def mutants(tree):
         Mutant("get_k zeroes small features of X0T in place", DKR, "        nspin, N0, Nsamp = X0T.shape\n        X1 = self.get_descriptors(X0T)\n        if self.mode == \"POL\":\n            if nspin == 1:\n                X1 = np.concatenate([X1, X1], axis=0)\n            elif nspin != 2:\n                raise ValueError\n            X1 = X1.reshape(2, Nsamp, self.N1)\n            kaa = self.kernel(X1[0], self.X1ctrl[0])",
                "        nspin, N0, Nsamp = X0T.shape\n        X0T[X0T < 1e-12] = 0.0\n        X1 = self.get_descriptors(X0T)\n        if self.mode == \"POL\":\n            if nspin == 1:\n                X1 = np.concatenate([X1, X1], axis=0)\n            elif nspin != 2:\n                raise ValueError\n            X1 = X1.reshape(2, Nsamp, self.N1)\n            kaa = self.kernel(X1[0], self.X1ctrl[0])",
                expect="param-write"),
+        # caches on kernel objects
+        Mutant("ARBF.diag caches the contracted scale sum keyed on (nfeat, order)", KR,
+               "        comb_list = np.array(comb_list)\n        return np.ones(X.shape[0]) * np.sum(self.scale * comb_list)",
+               "        comb_list = np.array(comb_list)\n        key = (nfeat, self.order)\n        cache = getattr(self, \"_diag_cache\", None)\n        if cache is None or cache[0] != key:\n            cache = (key, np.sum(self.scale * comb_list))\n            self._diag_cache = cache\n        return np.ones(X.shape[0]) * cache[1]",
+               expect="hyper-memo"),
+        Mutant("RBF.k_and_deriv memoises 1/length_scale**2 once", KR,
+               "        dk /= self.length_scale**2\n        return k, dk",
+               "        if not hasattr(self, \"_inv_ls2\"):\n            self._inv_ls2 = 1.0 / self.length_scale**2\n        dk *= self._inv_ls2\n        return k, dk",
+               expect="hyper-memo"),
         # lock
         Mutant("remove a _locked = False (Subset.diag)", KR,
                "        result = self._base_cls.diag(self, X[:, self.indexes])\n        self._locked = False\n",
